@@ -5,6 +5,7 @@ export GOFLAGS=-mod=mod GOPROXY=off GOSUMDB=off GOTOOLCHAIN=local CGO_ENABLED=0
 mkdir -p bin evidence replays .build
 go build -o bin/check ./cmd/check || exit 1
 for d in harness/c*/; do
+  ls "$d"*_test.go >/dev/null 2>&1 || continue
   go test -c -tags verif -o /dev/null "./$d" || exit 1
 done
 python3 tools/validate.py || exit 1
